@@ -223,6 +223,8 @@ def anonymous(ctx):
 def run(ctx):
     rng = ctx.rng("decls")
     if ctx.shard == 0:
+        check_decl(ctx, ctx.rng("pinned-k2"), True, "int8", 9000)  # pinned witness of the open finding K2
+        ctx.cell("pinned-witnesses")
         anonymous(ctx)
         legacy_numbering(ctx, ctx.rng("legacy"), 40 if not ctx.thorough else 800)
     for i in range(N_DECLS[ctx.tier]):
